@@ -69,7 +69,7 @@ pub fn replay_file(path: &str) -> i32 {
         "interleaving" => determinism::replay(case),
         "header" => headers::replay(case),
         "split" | "large" => atomic::replay(case),
-        "stream" => stream::replay(case),
+        "stream" | "stream-two-pieces" => stream::replay(case),
         "decode" => common::replay_decode(case),
         "deblock" => deblock::replay(case),
         k => {
